@@ -151,7 +151,10 @@ func runC14(c *RunCtx) {
 			desc = fmt.Sprintf("zeros(%d)", n)
 		case k == 5 && c.Thorough && t.Chance(1, 60):
 			n := 8_450_000 + t.Intn(100_000)
-			switch t.Intn(3) {
+			switch t.Intn(4) {
+			case 3:
+				// beyond 2^32/127 and 2^33/255 bytes: sums kept in packed 32-bit lanes
+				n = []int{33_700_000, 34_000_000, 50_600_000, 67_400_000}[t.Intn(4)] + t.Intn(100_000)
 			case 0:
 				n = 16_900_000 + t.Intn(9_000_000) // several accumulator ranges long
 			case 1:
